@@ -1,6 +1,7 @@
 import Hgxv.Model.Wire
 import Hgxv.Model.C11
 import Hgxv.Model.C11Stats
+import Hgxv.Model.C11Enum
 /-! Line protocol for C11 (stateless).
   `classes n`                      -> class masks in discovery order
   `orbits n`                       -> `c=l1,l2,..;c'=..` (`mapping` of generate_motifs, labels sorted)
@@ -14,7 +15,11 @@ import Hgxv.Model.C11Stats
   `dcounted n <sources> <targets>` -> `dCounted` (all classified node sets, sorted) `|` sum of the census counts
   `diffsum <obs> <nulls>`          -> `diff_sum` entries `|` their sum of squares, `rej` outside the guard
   `normvec <s> <a>`                -> `norm_vector(a)` with `math.sqrt(M) = s`
-  `ddiffsum <keys> <counts> <null keys> <null counts>` -> `directed_diff_sum` entries -/
+  `ddiffsum <keys> <counts> <null keys> <null counts>` -> `directed_diff_sum` entries
+  `ucounted n <edges>`             -> `countedPats` per pass: sets `/` patterns, passes separated by `|` (full, not-full,
+                                      standard), then `|` all sets sorted `|` their `inducedMask`s `|` the sorted sets of
+                                      `countedWith` run with reversed incidence / adjacency lists and reversed key order
+                                      `|` their patterns -/
 open Wire C11
 
 def tb3 := tbls 3
@@ -38,6 +43,12 @@ def showDCensus (t : List (List DEdge × Nat)) : String :=
   showList "|" "-" (fun (p : List DEdge × Nat) => showDPat p.1 ++ "=" ++ toString p.2) t
 
 def okOrder (n : Nat) : Bool := n == 3 || n == 4
+
+/-- (set, pattern) pairs sorted by set (insertion sort with `lexLt`; the lists are short) -/
+def insertP (a : List Nat × Nat) : List (List Nat × Nat) → List (List Nat × Nat)
+  | [] => [a]
+  | b :: bs => if lexLt b.1 a.1 then b :: insertP a bs else a :: b :: bs
+def sortLexP (l : List (List Nat × Nat)) : List (List Nat × Nat) := l.foldr insertP []
 
 def step (s : Unit) : List String → Unit × String
   | ["classes", n] => (s, showNats (clsOf n.toNat!))
@@ -93,6 +104,26 @@ def step (s : Unit) : List String → Unit × String
       (s, showNatss (sortLex (dCounted n (dUpTo n (a.zip b)))) ++ "|" ++
             toString ((dirCensus n (a.zip b)).map (·.2)).sum)
     | _, _ => (s, "bad-op")
+  | ["ucounted", n, es] =>
+    let n := n.toNat!
+    match natss? es with
+    | some E0 =>
+      if okOrder n then
+        let E := upTo n E0
+        let cp := countedPats n E0
+        let n1 := (fullSets n E).length
+        let n2 := if n == 4 then (notFullSets n E (fullSets n E)).length else 0
+        let part (l : List (List Nat × Nat)) : String :=
+          let l := sortLexP l
+          showNatss (l.map (·.1)) ++ "/" ++ showNats (l.map (·.2))
+        let all := sortLexP cp
+        let rev := sortLexP (countedWith n E0 (fun x => (incident n E x).reverse) (fun w => (nbrs E w).reverse)
+          (roots E).reverse)
+        (s, part (cp.take n1) ++ "|" ++ part ((cp.drop n1).take n2) ++ "|" ++ part (cp.drop (n1 + n2)) ++ "|" ++
+            showNatss (all.map (·.1)) ++ "|" ++ showNats (all.map fun sp => inducedMask n E0 sp.1) ++ "|" ++
+            showNatss (rev.map (·.1)) ++ "|" ++ showNats (rev.map (·.2)))
+      else (s, "rej")
+    | none => (s, "bad-op")
   | ["diffsum", obs, nulls] =>
     match nats? obs, natss? nulls with
     | some o, some ns =>
